@@ -208,10 +208,21 @@ def sym_struct(world: World, ex: Executor, st, ty: str, prefix: str, leaves: dic
     d = world.decls.get(head)
     if d is None:
         raise Unsupported(f"no declaration for {ty}")
+    # generic instantiation: Head<A, B> with declared parameters
+    sub = {}
+    mg = _re.match(r"^[\w:]+<(.*)>$", ty)
+    if mg and d.generics:
+        for g, a in zip(d.generics, mir.split_top(mg.group(1))):
+            sub[g] = a.strip()
+
+    def inst(t):
+        for g, a in sub.items():
+            t = _re.sub(rf"\b{g}\b", a, t)
+        return t
     if d.kind == "struct":
         fs = []
         for i, (fname, fty) in enumerate(d.fields):
-            fs.append(sym_struct(world, ex, st, fty, f"{prefix}.{fname or i}", leaves, variant_of))
+            fs.append(sym_struct(world, ex, st, inst(fty), f"{prefix}.{fname or i}", leaves, variant_of))
         return Adt(head, None, tuple(fs))
     if variant_of is None:
         raise Unsupported(f"enum {head} needs a variant choice")
@@ -219,6 +230,6 @@ def sym_struct(world: World, ex: Executor, st, ty: str, prefix: str, leaves: dic
     var = d.variant(vn)
     fs = []
     for i, (fname, fty) in enumerate(var.fields):
-        fs.append(sym_struct(world, ex, st, fty, f"{prefix}.{fname or i}", leaves, variant_of))
+        fs.append(sym_struct(world, ex, st, inst(fty), f"{prefix}.{fname or i}", leaves, variant_of))
     leaves[prefix + ".$variant"] = vn
     return Adt(head, vn, tuple(fs))
